@@ -49,8 +49,8 @@ function runJob(job) {
           out.B = B
         } else if ('update' in step) {
           if (step.slotValues) r.slotValues = rt.decodeValue(step.slotValues)
-          r.slotValueTrees = step.slotValueTrees === undefined ? undefined : rt.decodeTree(step.slotValueTrees)
-          r.update(procGen, rt.decodeValue(step.update), step.U === undefined ? undefined : rt.decodeTree(step.U))
+          r.slotValueTrees = step.slotValueTrees === undefined ? undefined : rt.decodeTree(step.slotValueTrees, job.arrayTrees)
+          r.update(procGen, rt.decodeValue(step.update), step.U === undefined ? undefined : rt.decodeTree(step.U, job.arrayTrees))
         } else if ('bmap' in step) {
           const ok = r.bindingMapUpdate(step.bmap, rt.decodeValue(step.data))
           out.bmapOk = ok
